@@ -247,6 +247,176 @@ fn split_runs(seed: u64, idx: u64) -> Out {
     out
 }
 
+/// Twin trainer for a network with one feedback block (mean coupling, no internal skips, 1..4
+/// loops): per group, every unrolled copy of a body layer takes one step of the documented
+/// update rule on the sum of ITS per-sample gradients (own optimizer state per copy), then the
+/// copies are coupled by the arithmetic mean of the stepped values. Gradients are the library's
+/// own (hooked backward at the twin's weights), as in `runs`.
+fn block_twin(seed: u64, idx: u64) -> Out {
+    use crate::monitors::c01::{coords, lib_grad_at};
+    let mut rng = Rng::stream(seed, "block_twin", idx);
+    let acts = [Act::Tanh, Act::Sigmoid, Act::Linear, Act::Leaky];
+    let depth = rng.range(2, 3);
+    let mut cfg = chain(&mut rng, (idx % 2) as usize, depth, &acts, false, true);
+    let mut out = Out::new(String::new());
+    if !insert_block(&mut rng, &mut cfg, 4) || cfg.layers.iter().filter(|l| matches!(l, LCfg::Feedback { .. })).count() != 1 {
+        out.nontrivial = false;
+        return out;
+    }
+    let opt = gen_optimizer(&mut rng, ((idx / 2) % 5) as usize);
+    let outputs = match cfg.layers.last().unwrap() {
+        LCfg::Dense { n, .. } => *n,
+        _ => 1,
+    };
+    let n = rng.range(2, 5);
+    let batch = rng.range(1, n);
+    let epochs = rng.range(1, 2);
+    let params = match gen_params(&cfg, &mut rng, -0.8, 0.8) {
+        Ok(p) => p,
+        Err(_) => {
+            out.nontrivial = false;
+            return out;
+        }
+    };
+    let train = random_data(&mut rng, cfg.input, n, outputs, Obj::MSE, false);
+    let desc = format!("{} | {} | N{} B{} E{}", cfg.describe(), opt.describe(), n, batch, epochs);
+    out.key = desc.clone();
+    let detail = || J::obj().set("case", J::s(&desc)).set("parameters", params_json(&params));
+    let mk = |p: &[P]| -> Result<Network, String> {
+        let mut net = build(&cfg, Some(p))?;
+        net.set_objective(lib_obj(Obj::MSE), None);
+        Ok(net)
+    };
+    let mut net = match mk(&params) {
+        Ok(n) => n,
+        Err(_) => {
+            out.nontrivial = false;
+            return out;
+        }
+    };
+    net.set_optimizer(opt.build());
+    let (xr, tr) = (train.x_refs(), train.t_refs());
+    let (res, _) = in_cached_pool(2, || guard(|| net.learn(&xr, &tr, None, batch, epochs as i32, None)));
+    let tl = match res {
+        Ok((tl, _, _)) => tl,
+        Err(m) => {
+            if m.contains("Loss is NaN") {
+                out.nontrivial = false;
+            } else {
+                out.viol("train:block-twin:learn-panic", format!("learn panicked: {} [{}]", short(&m, 160), desc), detail());
+            }
+            return out;
+        }
+    };
+    let objf = objective::Function::create(lib_obj(Obj::MSE), None);
+    let cs = coords(&cfg, &params);
+    let copies_of = |li: usize| match &cfg.layers[li] {
+        LCfg::Feedback { loops, .. } => *loops,
+        _ => 1,
+    };
+    // twin in f64 and in f32 arithmetic (the distance between the two loosens the comparison)
+    let run = |single: bool| -> Result<(Vec<Vec<f64>>, Vec<Vec<f64>>, Vec<f64>), String> {
+        let mut shared: Vec<Vec<f64>> = params.iter().map(|p| p.flat().iter().map(|v| *v as f64).collect()).collect();
+        let mut travel: Vec<Vec<f64>> = shared.iter().map(|l| vec![0.0; l.len()]).collect();
+        let mut st64: std::collections::HashMap<(usize, usize, usize), St<f64>> = std::collections::HashMap::new();
+        let mut st32: std::collections::HashMap<(usize, usize, usize), St<f32>> = std::collections::HashMap::new();
+        let mut cur = params.clone();
+        let mut losses = Vec::new();
+        guard(|| {
+            for epoch in 1..=epochs {
+                let (mut le, mut groups) = (0.0f64, 0usize);
+                for g in (0..n).collect::<Vec<_>>().chunks(batch) {
+                    let tnet = mk(&cur).expect("twin build");
+                    let mut sum: std::collections::HashMap<(usize, usize, usize), f64> = std::collections::HashMap::new();
+                    let mut lsum = 0.0f64;
+                    for &si in g {
+                        let (pre, post, maxp, fbs) = tnet.forward(&train.x_tensors[si]);
+                        let (l, grad) = objf.loss(post.last().unwrap(), &train.t_tensors[si]);
+                        lsum += l as f64;
+                        let (wg, bg) = tnet.verif_backward(grad, &pre, &post, &maxp, fbs);
+                        for co in cs.iter() {
+                            // per-sample gradients are added in f32, as the library does
+                            let gk = lib_grad_at(&tnet, &cfg, &wg, &bg, *co).expect("gradient entry") as f64;
+                            let e = sum.entry(*co).or_insert(0.0);
+                            *e = ((*e as f32) + gk as f32) as f64;
+                        }
+                    }
+                    le += lsum / g.len() as f64;
+                    groups += 1;
+                    for li in 0..shared.len() {
+                        let copies = copies_of(li);
+                        for i in 0..shared[li].len() {
+                            let before = shared[li][i];
+                            let mut acc = 0.0f64;
+                            for c in 0..copies {
+                                let gsum = *sum.get(&(li, c, i)).unwrap_or(&0.0);
+                                if single {
+                                    let (mut w, mut stt) = (before as f32, *st32.entry((li, c, i)).or_default());
+                                    model_step(&opt, epoch as i32, &mut w, gsum, &mut stt);
+                                    st32.insert((li, c, i), stt);
+                                    acc += w as f64;
+                                } else {
+                                    let (mut w, mut stt) = (before, *st64.entry((li, c, i)).or_default());
+                                    model_step(&opt, epoch as i32, &mut w, gsum, &mut stt);
+                                    st64.insert((li, c, i), stt);
+                                    acc += w;
+                                }
+                            }
+                            shared[li][i] = acc / copies as f64;
+                            travel[li][i] += (shared[li][i] - before).abs();
+                        }
+                        let vals: Vec<f32> = shared[li].iter().map(|v| *v as f32).collect();
+                        cur[li].set_flat(&vals);
+                    }
+                }
+                losses.push(le / groups as f64);
+            }
+        })?;
+        Ok((shared, travel, losses))
+    };
+    let (w, travel, tloss, wb, tloss_b) = match (run(false), run(true)) {
+        (Ok((w, t, l)), Ok((wb, _, lb))) => (w, t, l, wb, lb),
+        (Err(m), _) | (_, Err(m)) => {
+            out.inconclusive = Some(format!("block twin failed: {} [{}]", short(&m, 160), desc));
+            return out;
+        }
+    };
+    let lib = read_params(&net, &cfg, &params);
+    let lf: Vec<f32> = lib.iter().flat_map(|p| p.flat()).collect();
+    let tf: Vec<f64> = w.iter().flatten().cloned().collect();
+    let tb: Vec<f64> = wb.iter().flatten().cloned().collect();
+    let tv: Vec<f64> = travel.iter().flatten().cloned().collect();
+    if lf.len() != tf.len() || tf.iter().chain(tb.iter()).any(|v| !v.is_finite() || v.abs() > 1e15) || lf.iter().any(|v| !v.is_finite()) {
+        out.nontrivial = false;
+        out.count("block_twin_runs_not_judged_(diverged)", 1);
+        return out;
+    }
+    out.count("block_twin_runs_compared", 1);
+    if let LCfg::Feedback { loops, .. } = cfg.layers.iter().find(|l| matches!(l, LCfg::Feedback { .. })).unwrap() {
+        out.cover("block_twin_loops_x_optimizer", format!("L{} {}", loops, opt.name()));
+    }
+    for k in 0..lf.len() {
+        let drift = (tf[k] - tb[k]).abs();
+        let tol = 1e-4 * (tf[k].abs() + tv[k]) + 1e-6 + 8.0 * drift;
+        if (lf[k] as f64 - tf[k]).abs() > tol {
+            out.viol(
+                &format!("train:block-twin:weights:{}", opt.name()),
+                format!("after learn() parameter {} is {:e}; one {} step per unrolled copy on the sum of its gradients followed by mean coupling gives {:e} (tolerance {:e}) [{}]", k, lf[k], opt.name(), tf[k], tol, desc),
+                detail(),
+            );
+            break;
+        }
+    }
+    for e in 0..epochs.min(tl.len()) {
+        let tol = 1e-4 * tloss[e].abs() + 1e-6 + 8.0 * (tloss[e] - tloss_b[e]).abs();
+        if (tl[e] as f64 - tloss[e]).abs() > tol {
+            out.viol("train:block-twin:epoch-loss", format!("epoch {}: reported training loss {:e}, twin {:e} [{}]", e + 1, tl[e], tloss[e], desc), detail());
+            break;
+        }
+    }
+    out
+}
+
 /// A feedback block with ONE loop and no internal skips is its body applied once; its update is
 /// one optimizer step per body layer (mean coupling over a single copy is the identity). The
 /// same layers placed directly in the network are trained by Network::update, which the twin
@@ -361,10 +531,10 @@ impl Monitor for C04 {
         "C04"
     }
     fn gens(&self, tier: Tier) -> Vec<(&'static str, u64)> {
-        vec![("runs", tier.pick(21_000, 420_000)), ("exact_fit", tier.pick(6_000, 120_000)), ("big_batches", tier.pick(600, 12_000)), ("split_runs", tier.pick(9_000, 180_000)), ("block_inline", tier.pick(9_000, 180_000))]
+        vec![("runs", tier.pick(21_000, 420_000)), ("exact_fit", tier.pick(6_000, 120_000)), ("big_batches", tier.pick(600, 12_000)), ("split_runs", tier.pick(9_000, 180_000)), ("block_inline", tier.pick(9_000, 180_000)), ("block_twin", tier.pick(6_000, 120_000))]
     }
     fn rule(&self) -> &'static str {
-        "case i -> objective (i mod 7), optimizer kind (i/7 mod 5: SGD, SGDM, Adam, AdamW, RMSprop with random decay / dampening / momentum / centred), N in 1..23, B from {1,2,3,5,7,N-1,N,N+1,64} (so B=1, B not dividing N and B>N occur in every block of nine cases), E in 1..5, validation data in every second case, the objective gradient clamped in every fifth case, 6..12 epochs in every ninth, pools of 1..8 threads; random network of dense/conv/deconv/max-pool layers ending in a dense layer, pairwise different samples. (a) the hooked Forward/Update event log of the learn() call (and, in every third case, of a second learn() call on the same network, with another batch size and only a prefix of the samples) must match the trace grammar: per epoch the consecutive groups of B samples, each sample's forward pass exactly once and all before the group's single Update, Update step number = epoch index, then every validation sample once; nothing else. (b) a twin trainer recomputes the run: per-sample gradients from the library's own forward + hooked backward at the twin's weights, summed in sample order, one step of the documented update rule per group; final weights must agree within 1e-4 x (|w| + distance travelled) + 1e-6 and the per-epoch loss must equal the mean over groups of the mean per-sample loss. big_batches: the same two checks with N in {65,66,70,100,127..130,150,200,257} and B in {N, N-1, 64, 65, 70, 100, 128, 129, random 65..N} (groups larger than the library's parallel chunk of 64, mostly not a multiple of it), small networks. exact_fit: the same two checks on dense networks whose first layer is a ReLU layer with positive weights and negative bias followed by bias-free layers, with runs of samples that are fitted exactly (negative inputs, zero targets: loss 0, gradient 0) between ordinary samples, objectives AE / MAE / MSE: a group whose samples are all fitted exactly still receives its optimizer step (momentum, moment estimates and weight decay keep acting). split_runs: architectures the twin does not model (feedback blocks with and without bias, a skip or a loop connection), plain SGD with and without decay: one learn() call over G groups and E epochs must leave bit-identical weights to E*G learn() calls of one group each on an identically built network, and report the mean of those calls' losses per epoch (nothing is carried from one group to the next). block_inline: a chain network and the same network with one shape-preserving layer wrapped into a feedback block of ONE loop (no internal skips) are trained with the same data and the same optimizer (all five kinds, stateful ones included): final weights and epoch losses must agree (1e-3 relative to the weight change; bit-identical pairs are counted). Distinct = distinct (network, optimizer, N, B, E) descriptors."
+        "case i -> objective (i mod 7), optimizer kind (i/7 mod 5: SGD, SGDM, Adam, AdamW, RMSprop with random decay / dampening / momentum / centred), N in 1..23, B from {1,2,3,5,7,N-1,N,N+1,64} (so B=1, B not dividing N and B>N occur in every block of nine cases), E in 1..5, validation data in every second case, the objective gradient clamped in every fifth case, 6..12 epochs in every ninth, pools of 1..8 threads; random network of dense/conv/deconv/max-pool layers ending in a dense layer, pairwise different samples. (a) the hooked Forward/Update event log of the learn() call (and, in every third case, of a second learn() call on the same network, with another batch size and only a prefix of the samples) must match the trace grammar: per epoch the consecutive groups of B samples, each sample's forward pass exactly once and all before the group's single Update, Update step number = epoch index, then every validation sample once; nothing else. (b) a twin trainer recomputes the run: per-sample gradients from the library's own forward + hooked backward at the twin's weights, summed in sample order, one step of the documented update rule per group; final weights must agree within 1e-4 x (|w| + distance travelled) + 1e-6 and the per-epoch loss must equal the mean over groups of the mean per-sample loss. big_batches: the same two checks with N in {65,66,70,100,127..130,150,200,257} and B in {N, N-1, 64, 65, 70, 100, 128, 129, random 65..N} (groups larger than the library's parallel chunk of 64, mostly not a multiple of it), small networks. exact_fit: the same two checks on dense networks whose first layer is a ReLU layer with positive weights and negative bias followed by bias-free layers, with runs of samples that are fitted exactly (negative inputs, zero targets: loss 0, gradient 0) between ordinary samples, objectives AE / MAE / MSE: a group whose samples are all fitted exactly still receives its optimizer step (momentum, moment estimates and weight decay keep acting). split_runs: architectures the twin does not model (feedback blocks with and without bias, a skip or a loop connection), plain SGD with and without decay: one learn() call over G groups and E epochs must leave bit-identical weights to E*G learn() calls of one group each on an identically built network, and report the mean of those calls' losses per epoch (nothing is carried from one group to the next). block_twin: chain networks with one feedback block (mean coupling, no internal skips, 1..4 loops, all five optimizers): the twin lets every unrolled copy take one step of the documented rule on the sum of its own per-sample gradients (own state per copy) and couples the copies by the arithmetic mean; final weights and epoch losses as in `runs`. block_inline: a chain network and the same network with one shape-preserving layer wrapped into a feedback block of ONE loop (no internal skips) are trained with the same data and the same optimizer (all five kinds, stateful ones included): final weights and epoch losses must agree (1e-3 relative to the weight change; bit-identical pairs are counted). Distinct = distinct (network, optimizer, N, B, E) descriptors."
     }
     fn assumptions(&self) -> Vec<&'static str> {
         vec![
@@ -379,6 +549,9 @@ impl Monitor for C04 {
         }
         if gen == "block_inline" {
             return block_inline(seed, idx);
+        }
+        if gen == "block_twin" {
+            return block_twin(seed, idx);
         }
         let mut rng = Rng::stream(seed, gen, idx);
         let exact = gen == "exact_fit";
@@ -784,6 +957,7 @@ impl Monitor for C04 {
         agg.require(agg.set_size("n_b_relation") == 4, "N/B relations not all exercised".into());
         agg.require(agg.set_size("optimizer_x_objective") == 35, format!("{} of 35 optimizer x objective combinations", agg.set_size("optimizer_x_objective")));
         agg.require(agg.count("exactly_fitted_groups_after_the_optimizer_state_may_be_non_zero") >= 500, "too few exactly fitted groups".into());
+        agg.require(agg.count("block_twin_runs_compared") >= 1500, "too few block twin runs".into());
         agg.require(agg.count("block_inline_pairs_compared") >= 2000, "too few block/inline pairs".into());
         agg.require(agg.count("split_run_pairs_compared") >= 2000, "too few split-run pairs".into());
         agg.require(agg.count("runs_with_groups_larger_than_64_samples") >= 300, "too few runs with large groups".into());
